@@ -345,8 +345,13 @@ async def _body(env, case, path, out):
     ecu.db_handler = db
     obs = out["obs"]
     crash = case.get("crash")
+    hook = out.get("hook")      # harness/lib/c11s.py: a slow / contended database (lock holder, writer latencies)
+    if hook:
+        await hook("start", 0, db)
     try:
         for i, p in enumerate(case["plans"]):
+            if hook:
+                await hook("before", i, db)
             if crash and crash["how"] in ("raise", "cancel") and crash["after"] == i:
                 if crash["how"] == "raise":
                     raise _Boom("scanner code failed")
@@ -418,24 +423,37 @@ async def _body(env, case, path, out):
                 return await orig()
 
             q.join = join
+        if hook:
+            await hook("end", len(case["plans"]), db)
         await db.disconnect()
 
 
-def run_case(case):
-    """-> dict(obs, rows, warnings, end)"""
+def run_case(case, hook=None, real_time=None, horizon=None):
+    """-> dict(obs, rows, warnings, end).  `hook(stage, i, db)`: see `_body`; `real_time` = wall-clock watchdog in seconds:
+    the case runs on a plain (real-time) loop instead of the virtual one; `horizon`: virtual-time bound of the case"""
     env = _env()
     rec_e, rec_h = _Rec(), _Rec()
     env["E"].logger = rec_e
     env["H"].logger = rec_h
-    out = {"obs": [], "db": None, "run": None}
+    out = {"obs": [], "db": None, "run": None, "hook": (lambda *a: hook(*a, path)) if hook else None}
     end = "ok"
     with tempfile.TemporaryDirectory(prefix="c11-", dir=os.environ.get("C11_TMP") or None) as d:
         path = Path(d) / "scan.sqlite"
-        loop = VLoop()
+        if real_time:
+            loop = asyncio.new_event_loop()
+        else:
+            loop = VLoop()
+            loop.horizon = horizon
         asyncio.set_event_loop(loop)
         try:
             try:
-                loop.run_until_complete(_body(env, case, path, out))
+                if real_time:
+                    try:
+                        loop.run_until_complete(asyncio.wait_for(_body(env, case, path, out), real_time))
+                    except asyncio.TimeoutError:
+                        end = f"watchdog: the run (disconnect included) did not return within {real_time} s"
+                else:
+                    loop.run_until_complete(_body(env, case, path, out))
             except asyncio.CancelledError:
                 end = "cancelled"
             except _Boom:
@@ -671,6 +689,9 @@ def _shrink(case, idx, bad_key):
 def _eval(item):
     """worker: run one case against the real stack, judge it, shrink a failing one"""
     label, case = item
+    if case.get("kind") == "slowdb":
+        from lib import c11s
+        return c11s.evaluate(label, case)
     if case.get("kind"):
         from lib import c11x
         return c11x.evaluate(label, case)
@@ -687,6 +708,9 @@ def _eval(item):
 
 
 def book(ctx, label, case, res, j):
+    if case.get("kind") == "slowdb":
+        from lib import c11s
+        return c11s.book(ctx, label, case, res, j)
     if case.get("kind"):
         return book_x(ctx, label, case, res, j)
     ctx.ev()
@@ -740,7 +764,8 @@ def book_x(ctx, label, case, res, j):
 
 def compare_model(ctx, pending):
     """pending: list of (case, res) that satisfied the property; the model must leave the same rows"""
-    from lib import c11x
+    from lib import c11s, c11x
+    c11s.compare(ctx, [(c, r) for (c, r) in pending if c.get("kind") == "slowdb"])
     c11x.compare_multi(ctx, [(c, r) for (c, r) in pending if c.get("kind") == "multi"])
     c11x.compare_tables(ctx, [(c, r) for (c, r) in pending if c.get("kind") == "tables"])
     c11x.compare_life(ctx, [(c, r) for (c, r) in pending if c.get("kind") == "life"])
@@ -1151,6 +1176,9 @@ def gen_cases(ctx):
     cases += c11x.gen_life(ctx, K)
     cases += c11x.gen_multi(ctx, K)
     cases += c11x.gen_tables(ctx)
+    # 0a. a slow database: writer latencies in virtual time (the lock cases run in real time: see run())
+    from lib import c11s
+    cases += c11s.gen_slow(ctx, K)
     # 0b. raw requests with arbitrary bytes; walks over the state-driving replies
     cases += gen_raw(ctx, K)
     cases += gen_state_walks(ctx, K)
@@ -1240,6 +1268,13 @@ def run(ctx):
     _state_corr(ctx)
     _attrs_corr(ctx)
     _stored_corr(ctx)
+    from lib import c11s
+    import multiprocessing as mp
+    # a database locked by another connection at shutdown: real waiting (up to ~7 s per case), so these cases get their own
+    # processes and run concurrently with everything below
+    lock_cases = c11s.gen_lock(ctx, _env()["K"])
+    lock_pool = mp.get_context("fork").Pool(min(len(lock_cases), ctx.pick(3, 6)))
+    lock_async = [(lc, lock_pool.apply_async(_eval, (lc,))) for lc in lock_cases]
     cases = gen_cases(ctx)
     ctx.exhaustive_parts.append(f"every request kind ({len(_env()['K'])}) x every outcome class ({len(OUTCOMES)}) as a single-exchange history")
     ctx.exhaustive_parts.append("cancellation at every write / read await of multi-await exchanges (pending loop, retries)")
@@ -1250,7 +1285,6 @@ def run(ctx):
     ctx.exhaustive_parts.append("cancellation requested (not yet delivered) at every read of the last exchange of small histories, and at the end of bursts long enough to fill the write queue if it had a capacity")
     budget = ctx.pick(60, 780)
     pending = []
-    import multiprocessing as mp
 
     workers = int(os.environ.get("C11_WORKERS", ctx.pick(8, 12)))
     pool = mp.get_context("fork").Pool(workers)
@@ -1266,11 +1300,35 @@ def run(ctx):
     finally:
         pool.terminate()
         pool.join()
+    try:
+        for (label, case), a in lock_async:
+            try:
+                label, case, res, j = a.get(timeout=case["hold"] + 2 * c11s.LOCK_WATCHDOG_EXTRA + (0 if ctx.quick else 120))
+            except mp.TimeoutError:
+                ctx.ev()
+                ctx.disagree("c11:db-locked-by-another-connection:no-return", "the case did not return (process-level watchdog): "
+                             f"database locked by another connection for {case['hold']} s while disconnect() is called", case,
+                             impl="no return", model="disconnect() returns after the lock is released, all rows written",
+                             spec_violated=True, site="DBHandler.disconnect")
+                continue
+            if book(ctx, label, case, res, j):
+                pending.append((case, res))
+    finally:
+        lock_pool.terminate()
+        lock_pool.join()
     compare_model(ctx, pending)
 
 
 def replay(ctx, rec):
     case = rec.get("case") or rec
+    if case.get("kind") == "slowdb":
+        from lib import c11s
+        _env()
+        res = c11s.run_case(case)
+        j = c11s.judge(res, case)
+        print(json.dumps({"rows": res["rows"], "warnings": res["warnings"], "end": res["end"],
+                          "expected_rows": expected_rows(res["obs"]), "verdict": j}, indent=1, default=str))
+        return 1 if j is not None else 0
     if case.get("kind") in ("multi", "tables", "life"):
         from lib import c11x
         _env()
